@@ -119,14 +119,19 @@ def unit_query(U):
         it.contracts[H._unjsonify] = lambda interp, a, k: IM.OpaqueJSON(a[0])
         out = list(it.call(I.FeatureDB.iter_by_parent_childs, [db], {"featuretype": "gene"}))
         return out, prow
+    frow, rrow, rvars = SQ.sym_feature_and_relation()
     for p in U.explore(run2, it):
-        ok = False
+        ok, goal = False, z3.BoolVal(False)
         if p.kind == "return":
             out, prow = p.value
             ex = ghostdb.executes(p.ctx)
-            ok = (len(out) == 1 and len(out[0]) == 1 and len(ex) == 2 and "JOIN relations" in str(ex[1][1]) and "relations.child = features.id" in " ".join(str(ex[1][1]).split())
-                  and ex[1][2][0] is prow["id"])
-        U.prove("C02.iter_by_parent_childs#p%d" % p.index, "yields [parent] + list(children(parent.id)) for each feature of the requested type", [], z3.BoolVal(ok), {})
+            ok = len(out) == 1 and len(out[0]) == 1 and len(ex) == 2
+            if ok:
+                # the second statement is the children query of THAT parent: matched <==> r.parent == parent.id and r.child == f.id
+                # (whatever the spelling of the join); parse errors are engine signals (undecided)
+                sel = SQ.Selected(ex[1][1], ex[1][2], frow, rrow)
+                goal = z3.And(z3.BoolVal(sel.joined), sel.cond == SQ.relation_ok(frow, rrow, IM.zs(prow["id"]), None, "children"))
+        U.prove("C02.iter_by_parent_childs#p%d" % p.index, "yields [parent] + list(children(parent.id)) for each feature of the requested type", list(p.pc), z3.And(z3.BoolVal(ok), goal), rvars)
 
 
 UNITS = [("query", unit_query)] + IM.c02_units()
